@@ -236,6 +236,46 @@ def check_config(ctx, T, cfg, tier, seed):
                 ctx.violation(k, dict(case, key=k), "jacobian through route %s differs from route %s (%s)" % (
                     r, r0, repr(e) if e is not None else "values"))
 
+    # ---- layouts: the same points as 2-D C / Fortran / transposed / strided arrays must give the same
+    # jacobian and forward values element by element (the transforms are documented as element-wise)
+    if jac is not None and len(xin) >= 4 and cls != "Softmax":
+        k2 = (len(xin) // 2) * 2
+        xe = xin[:k2]
+        big = np.full(2 * k2 + 1, xe[0])
+        big[1::2] = xe
+        variants = [("2d-C", xe.reshape(-1, 2).copy(), lambda a: a.reshape(-1)),
+                    ("2d-fortran", np.asfortranarray(xe.reshape(-1, 2)), lambda a: np.ascontiguousarray(a).reshape(-1)),
+                    ("2d-transposed-view", xe.reshape(2, -1).copy().T, lambda a: np.ascontiguousarray(a.T).reshape(-1)),
+                    ("1d-strided", big[1::2], lambda a: np.ascontiguousarray(a).reshape(-1))]
+        reff, ef = call(t0.forward, xe.copy())
+        for lname, arr, back in variants:
+            if lname == "2d-transposed-view":
+                expect_idx = np.arange(k2).reshape(2, -1)          # arr[i, j] = xe.reshape(2,-1)[j, i]
+                order = expect_idx.T.reshape(-1)                   # element order of arr.T ravel == original
+            for fname, f, ref in (("jacobian", t0.jacobian, jac[:k2]), ("forward", t0.forward, reff)):
+                if ref is None:
+                    continue
+                out, e = call(f, arr.copy() if lname != "1d-strided" else arr)
+                ctx.case(True, n=k2)
+                if e is not None:
+                    ctx.count("layout.rejected.%s.%s" % (lname, type(e).__name__))
+                    continue
+                try:
+                    if out.shape != arr.shape:
+                        raise ValueError("shape %r != %r" % (out.shape, arr.shape))
+                    flat = back(out)
+                except Exception as ex:
+                    k = "%s:%s:layout=%s:shape" % (cls, fname, lname)
+                    ctx.violation(k, dict(case, key=k), "%s of a %s array: %r" % (fname, lname, ex))
+                    continue
+                ctx.count("layout.accepted.%s" % lname)
+                if not np.array_equal(flat, ref, equal_nan=True):
+                    i = int(np.nonzero(~((flat == ref) | (np.isnan(flat) & np.isnan(ref))))[0][0])
+                    k = "%s:%s:layout=%s" % (cls, fname, lname)
+                    ctx.violation(k, dict(case, key=k, point=H.fl(xe[i])),
+                                  "%s(x) of the same points given as a %s array differs: at x=%r %r vs %r for the 1-d C-contiguous array" % (
+                                      fname, lname, float(xe[i]), float(flat[i]), float(ref[i])))
+
     # ---- O3: monotonic forward on the sorted lattice
     y, e = call(t0.forward, xin.copy())
     ctx.case(True, outcome=None if y is None else y.tobytes(), n=max(len(xin) - 1, 0))
